@@ -279,7 +279,7 @@ func execCfg(r *mon.Run, c *CfgCase, rng *rand.Rand) {
 				return
 			}
 			// and the model itself: a single bound method must be reached
-			if len(binds) == 1 && oa.Method != universe[binds[0]].Full() {
+			if len(binds) == 1 && oa.Method != universe[binds[0]].Full() && tmplref.TokenCount(in.Path()) <= 64 {
 				// only when no other rule of the configuration competes
 				if len(c.Rules) == 1 {
 					r.Violate("selector:model-method-not-reached", fmt.Sprintf("selector %q: %s %s reached [%s], want %s", cr.Selector, verb, in.Path(), oa, universe[binds[0]].Full()), c)
